@@ -40,91 +40,7 @@ func checkC13(R *Run) {
 
 	R.rule("disconnect-notifies", "Disconnect removes the registry entry, then produces the user-left notice (302 carrying the user's ID) on every path, and closes the connection")
 	R.ruleDisconnectShape("disconnect-notifies")
-	// ---- id-unique
-	nAdd := 0
-	for _, fn := range P.Funcs {
-		if fn.Name() != "Add" || fn.Signature.Recv() == nil || len(fn.Params) != 2 || typeName(fn.Params[1].Type()) != "*hotline.ClientConn" {
-			continue
-		}
-		nAdd++
-		R.analysed(fname(fn))
-		var updates []*ssa.MapUpdate
-		eachInstr(fn, func(i ssa.Instruction) {
-			if mu, ok := i.(*ssa.MapUpdate); ok && mu.Value == ssa.Value(fn.Params[1]) {
-				updates = append(updates, mu)
-			}
-		})
-		if len(updates) == 0 {
-			R.und("id-unique", fname(fn), P.pos(fn.Pos()), "no registry insertion of the connection found")
-			continue
-		}
-		for i, mu := range updates {
-			construct := fmt.Sprintf("%s: registry insert #%d", fname(fn), i+1)
-			mapField, _ := loadedField(mu.Map)
-			keySym := stripRecv(P.sym(mu.Key))
-			// lookups of the same key in the same map
-			var lk *ssa.Lookup
-			cut := map[Edge]bool{}
-			zeroCut := map[Edge]bool{}
-			factEdges(fn, func(e Edge, f Fact) {
-				if f.Kind == "truth" {
-					if ex, ok := f.V.(*ssa.Extract); ok && ex.Index == 1 {
-						if l, ok := ex.Tuple.(*ssa.Lookup); ok && l.CommaOk {
-							if mf, _ := loadedField(l.X); mf == mapField && stripRecv(P.sym(l.Index)) == keySym {
-								lk = l
-								if !f.Holds { // keep only the paths on which the ID is present: no insertion may be reachable
-									cut[e] = true
-								}
-							}
-						}
-					}
-					// cc.ID != ClientID{} against a literal
-					if b, ok := f.V.(*ssa.BinOp); ok {
-						for _, pair := range [][2]ssa.Value{{b.X, b.Y}, {b.Y, b.X}} {
-							if fl, ok := loadedField(pair[0]); ok && fl == "hotline.ClientConn.ID" {
-								if bs, ok := P.bytesOf(pair[1]); ok && len(bs) == 2 && bs[0] == 0 && bs[1] == 0 {
-									isZero := f.Holds == (b.Op.String() == "==")
-									if !isZero {
-										zeroCut[e] = true // keep only "ID is zero" paths
-									}
-								}
-							}
-						}
-					}
-				}
-			})
-			factEdges(fn, func(e Edge, f Fact) {
-				// comparison with the zero value ClientID{} is rendered as a nil-kind fact
-				if f.Kind == "nil" {
-					if fl, ok := loadedField(f.V); ok && fl == "hotline.ClientConn.ID" {
-						if !f.Holds {
-							zeroCut[e] = true
-						}
-					}
-				}
-			})
-			var problems []string
-			if lk == nil {
-				problems = append(problems, "the registry entry is written without first testing whether that ID is already held by a connected client (the 16-bit counter wraps after 65535 connections and evicts a live user)")
-			} else {
-				if reachable(fn, cut)[mu.Block()] {
-					problems = append(problems, "the insertion is reachable on the edge where the ID is already present")
-				}
-				// no ID write between lookup and update
-				ok, _ := mustPassAfterUntil(lk, mu, func(ins ssa.Instruction) bool { return writesClientID(ins) })
-				if !ok {
-					problems = append(problems, "the connection's ID is rewritten between the membership test and the insertion")
-				}
-				if len(zeroCut) == 0 || reachable(fn, zeroCut)[mu.Block()] {
-					problems = append(problems, "the reserved zero ID can be handed out")
-				}
-			}
-			R.check(len(problems) == 0, "id-unique", construct, P.ipos(mu), "insert only for an ID that is absent and non-zero", strings.Join(problems, "; "))
-		}
-	}
-	if nAdd == 0 {
-		R.bad("id-unique", "ClientManager.Add implementations", "-", "no non-mock Add(cc *ClientConn) method found")
-	}
+	R.ruleIDUnique()
 
 	// ---- refuse-pm
 	regs := R.registeredHandlers()
@@ -599,4 +515,95 @@ func isNotifierFn(P *Prog, fn *ssa.Function, depth int) bool {
 	})
 	notifierMemo[fn] = ok
 	return ok
+}
+
+// ruleIDUnique (C13, shared with C14: a reply is correlated with its request through the client ID).
+func (R *Run) ruleIDUnique() {
+	P := R.P
+	_ = P
+	nAdd := 0
+	for _, fn := range P.Funcs {
+		if fn.Name() != "Add" || fn.Signature.Recv() == nil || len(fn.Params) != 2 || typeName(fn.Params[1].Type()) != "*hotline.ClientConn" {
+			continue
+		}
+		nAdd++
+		R.analysed(fname(fn))
+		var updates []*ssa.MapUpdate
+		eachInstr(fn, func(i ssa.Instruction) {
+			if mu, ok := i.(*ssa.MapUpdate); ok && mu.Value == ssa.Value(fn.Params[1]) {
+				updates = append(updates, mu)
+			}
+		})
+		if len(updates) == 0 {
+			R.und("id-unique", fname(fn), P.pos(fn.Pos()), "no registry insertion of the connection found")
+			continue
+		}
+		for i, mu := range updates {
+			construct := fmt.Sprintf("%s: registry insert #%d", fname(fn), i+1)
+			mapField, _ := loadedField(mu.Map)
+			keySym := stripRecv(P.sym(mu.Key))
+			// lookups of the same key in the same map
+			var lk *ssa.Lookup
+			cut := map[Edge]bool{}
+			zeroCut := map[Edge]bool{}
+			factEdges(fn, func(e Edge, f Fact) {
+				if f.Kind == "truth" {
+					if ex, ok := f.V.(*ssa.Extract); ok && ex.Index == 1 {
+						if l, ok := ex.Tuple.(*ssa.Lookup); ok && l.CommaOk {
+							if mf, _ := loadedField(l.X); mf == mapField && stripRecv(P.sym(l.Index)) == keySym {
+								lk = l
+								if !f.Holds { // keep only the paths on which the ID is present: no insertion may be reachable
+									cut[e] = true
+								}
+							}
+						}
+					}
+					// cc.ID != ClientID{} against a literal
+					if b, ok := f.V.(*ssa.BinOp); ok {
+						for _, pair := range [][2]ssa.Value{{b.X, b.Y}, {b.Y, b.X}} {
+							if fl, ok := loadedField(pair[0]); ok && fl == "hotline.ClientConn.ID" {
+								if bs, ok := P.bytesOf(pair[1]); ok && len(bs) == 2 && bs[0] == 0 && bs[1] == 0 {
+									isZero := f.Holds == (b.Op.String() == "==")
+									if !isZero {
+										zeroCut[e] = true // keep only "ID is zero" paths
+									}
+								}
+							}
+						}
+					}
+				}
+			})
+			factEdges(fn, func(e Edge, f Fact) {
+				// comparison with the zero value ClientID{} is rendered as a nil-kind fact
+				if f.Kind == "nil" {
+					if fl, ok := loadedField(f.V); ok && fl == "hotline.ClientConn.ID" {
+						if !f.Holds {
+							zeroCut[e] = true
+						}
+					}
+				}
+			})
+			var problems []string
+			if lk == nil {
+				problems = append(problems, "the registry entry is written without first testing whether that ID is already held by a connected client (the 16-bit counter wraps after 65535 connections and evicts a live user)")
+			} else {
+				if reachable(fn, cut)[mu.Block()] {
+					problems = append(problems, "the insertion is reachable on the edge where the ID is already present")
+				}
+				// no ID write between lookup and update
+				ok, _ := mustPassAfterUntil(lk, mu, func(ins ssa.Instruction) bool { return writesClientID(ins) })
+				if !ok {
+					problems = append(problems, "the connection's ID is rewritten between the membership test and the insertion")
+				}
+				if len(zeroCut) == 0 || reachable(fn, zeroCut)[mu.Block()] {
+					problems = append(problems, "the reserved zero ID can be handed out")
+				}
+			}
+			R.check(len(problems) == 0, "id-unique", construct, P.ipos(mu), "insert only for an ID that is absent and non-zero", strings.Join(problems, "; "))
+		}
+	}
+	if nAdd == 0 {
+		R.bad("id-unique", "ClientManager.Add implementations", "-", "no non-mock Add(cc *ClientConn) method found")
+	}
+
 }
